@@ -32,6 +32,8 @@ ID_FAULT = ("C14 a failed read of a referenced slice during teardown/archival is
 ID_NAMES = "C14 slice name reused for different content or a foreign controller, or an existing slice modified"
 ID_LOSSLESS = ("C14 the slices named by the stored deployment template do not decode to the phase's objects "
                "(a slice name was reused for different content)")
+ID_REDEPLOY = ("C14 redeploying the unchanged package creates new ObjectSlices / changes the slice names of the template "
+               "(names are not determined by content: the stored slice never equals the rendered one)")
 ID_GC = "C14 slice garbage collection deleted a slice that the template or an ObjectSet of the deployment references"
 
 
@@ -259,6 +261,18 @@ def gen_gc(seed, tier):
             {"op": "slice", "at": [3, 0], "label": 0, "ctrl": 1, "holds": 0}, {"op": "deploy", "phases": [[3, 1]]},
             {"op": "newset", "name": 2, "listed": 0}, {"op": "deploy", "phases": [[3, 1]]}]},
     ]
+    # two chunked packages of the same name in two namespaces with different content, updated in turn: the collector of
+    # one must not touch the slices of the other; unchanged redeploys in between
+    out.append({"cluster": False, "steps": [
+        {"op": "deploy", "phases": [[0, 1]]}, {"op": "deploy", "phases": [[2, 4]], "other": True},
+        {"op": "newset", "name": 1, "listed": 0}, {"op": "newset", "name": 2, "listed": 0, "other": True},
+        {"op": "deploy", "phases": [[0, 1]]}, {"op": "deploy", "phases": [[2, 4]], "other": True},
+        {"op": "deploy", "phases": [[0, 5]]}, {"op": "deploy", "phases": [[7, 4]], "other": True},
+        {"op": "delset", "name": 1}, {"op": "deploy", "phases": [[0, 5]]}, {"op": "deploy", "phases": [[7, 4]], "other": True}]})
+    # objects whose only annotation is the CEL condition (contents 3, 4, 5), deployed twice unchanged
+    out.append({"cluster": False, "steps": [{"op": "deploy", "phases": [[3, 4], [5]]}, {"op": "deploy", "phases": [[3, 4], [5]]},
+                                            {"op": "newset", "name": 1, "listed": 0}, {"op": "deploy", "phases": [[3, 4], [5]]}]})
+    out.append({"cluster": True, "steps": [{"op": "deploy", "phases": [[3, 9]]}, {"op": "deploy", "phases": [[3, 9]]}]})
     # the same with real collisions of the slice-name hash: revision 1 ships a, the update ships b (same objects,
     # other manifests, same 32-bit hash) while the slice of a still exists (its ObjectSet is still there)
     for a, b in load_collisions():
@@ -268,18 +282,34 @@ def gen_gc(seed, tier):
             {"op": "delset", "name": 1}, {"op": "deploy", "phases": [[b, 1]]}, {"op": "deploy", "phases": [[a], [b]]}]})
     n = 120 if tier == "quick" else 4000
     for _ in range(n):
-        k = r.choice([3, 4, 5, 6])
+        k = r.choice([3, 4, 6, 9, 12])
         nph = r.choice([1, 1, 2, 3])
         steps, sets, nset = [], [], 1
 
+        cluster = r.random() < 0.2
+        two = (not cluster) and r.random() < 0.35      # a same-named deployment in a second namespace
+        last = {}
+
         def deploy():
-            return {"op": "deploy", "phases": [[r.randrange(k) for _ in range(r.choice([0, 0, 1, 2, 2, 3]))] for _ in range(nph)]}
+            other = two and r.random() < 0.45
+            if other in last and r.random() < 0.3:
+                phases = last[other]                   # redeploy of the unchanged package
+            else:
+                phases = [[r.randrange(k) for _ in range(r.choice([0, 0, 1, 2, 2, 3]))] for _ in range(nph)]
+            last[other] = phases
+            st = {"op": "deploy", "phases": phases}
+            if other:
+                st["other"] = True
+            return st
         steps.append(deploy())
         for _ in range(r.choice([2, 3, 4, 5, 6, 8])):
             x = r.random()
             if x < 0.3:
-                steps.append({"op": "newset", "name": nset, "listed": r.choice([0, 0, 0, 0, 1, 2]),
-                              "life": r.choice([0, 0, 0, 1, 2, 2]), "gone": r.random() < 0.1})
+                st = {"op": "newset", "name": nset, "listed": r.choice([0, 0, 0, 0, 1, 2]),
+                      "life": r.choice([0, 0, 0, 1, 2, 2]), "gone": r.random() < 0.1}
+                if two and r.random() < 0.4:
+                    st["other"], st["listed"] = True, r.choice([0, 0, 1])
+                steps.append(st)
                 sets.append(nset)
                 nset += 1
             elif x < 0.4 and sets:
@@ -296,32 +326,49 @@ def gen_gc(seed, tier):
             else:
                 steps.append(deploy())
         steps.append(deploy())
-        out.append({"cluster": r.random() < 0.2, "steps": steps})
+        out.append({"cluster": cluster, "steps": steps})
     return out
 
 
-def gc_terms(obs_steps):
-    """One case per deploy step of a history."""
+def gc_terms(sc, obs_steps):
+    """One case per deploy step of a history. Slices are numbered by (namespace, name)."""
     out = []
+    prev = {}           # acting namespace -> (desired phases, template names) of its previous deploy step
     for o in obs_steps:
         num = {}
+        A = o["ns"]
 
-        def nn(s):
-            if s not in num:
-                num[s] = len(num) + 1
-            return num[s]
-        tmpl = cL([cL([cN(nn(n)) for n in ph]) for ph in o["template"]])
-        sets = cL(["(Build_gset %s %s)" % (cB(s["listed"]), cL([cL([cN(nn(n)) for n in ph]) for ph in s["refs"]])) for s in o["sets"]])
-        slices = cL(["(Build_gslice %d %s)" % (nn(s["name"]), cB(s["labelled"])) for s in o["before"]])
+        def nn(ns, s):
+            if (ns, s) not in num:
+                num[(ns, s)] = len(num) + 1
+            return num[(ns, s)]
+        tmpl = cL([cL([cN(nn(A, n)) for n in ph]) for ph in o["template"]])
+        sets = cL(["(Build_gset %s %s)" % (cB(s["listed"]), cL([cL([cN(nn(s["ns"], n)) for n in ph]) for ph in s["refs"]])) for s in o["sets"]])
+        slices = cL(["(Build_gslice %d %s)" % (nn(s["ns"], s["name"]), cB(s["labelled"])) for s in o["before"]])
         bad = [q for q in o["requests"] if q.get("err") and not (q["verb"] == "create" and q["err"] == "AlreadyExists")]
         if o.get("err") or bad:
             raise pl.Unrepresentable("Reconcile failed: %s %s" % (o.get("err"), bad[:1]))
-        deleted = cL([cN(nn(q["name"])) for q in o["requests"] if q["verb"] == "delete"])
+        deleted = cL([cN(nn(q["ns"], q["name"])) for q in o["requests"] if q["verb"] == "delete"])
+        created = cL([cN(nn(q["ns"], q["name"])) for q in o["requests"] if q["verb"] == "create" and not q.get("err")])
+        # references held in OTHER namespaces: templates of other deployments, ObjectSets living there
+        foreign = {(d["ns"], n) for d in o["others"] if d["ns"] != A for ph in d["template"] for n in ph}
+        foreign |= {(s["ns"], n) for s in o["sets"] if s["ns"] != A for ph in s["refs"] for n in ph}
+        want = sc["steps"][o["step"]]["phases"]
+        # "unchanged redeploy": same phases and chunks as the deployment's previous deploy, and no slice was deleted
+        # since the slices of that deploy were written (premise of C14_redeploy_unchanged: the store kept them and
+        # every slice they collided with; once the collector has removed a colliding slice the name is free again)
+        redeploy = A in prev and prev[A][0] == want and not prev[A][2]
+        prevt = cL([cL([cN(nn(A, n)) for n in ph]) for ph in (prev[A][1] if redeploy else [])])
+        ndel = sum(1 for q in o["requests"] if q["verb"] == "delete")
+        for k in prev:
+            prev[k] = (prev[k][0], prev[k][1], prev[k][2] or ndel > 0)
+        prev[A] = (want, o["template"], ndel > 0)
 
         def cc(l):
             return cL([cL([cN(c if c >= 0 else 999999990 - c) for c in ph]) for ph in l])
-        out.append("(Build_gcase %s %s %s %s %s %s)" % (tmpl, sets, slices, deleted, cc([ph for ph in o["want"] if ph]),
-                                                       cc([ph for ph in o["got"] if ph])))
+        out.append("(Build_gcase %s %s %s %s %s %s %s %s %s %s)" % (
+            tmpl, sets, slices, deleted, cc([ph for ph in o["want"] if ph]), cc([ph for ph in o["got"] if ph]),
+            cL([cN(nn(ns, n)) for ns, n in sorted(foreign)]), cB(redeploy), prevt, created))
     return out
 
 
@@ -333,14 +380,14 @@ def gc_stage(run, scs):
             run.violation("corr:C14/slicegc harness error or panic", {"scenario": sc, "out": o}, False)
             continue
         try:
-            ts = gc_terms(o["obs"])
+            ts = gc_terms(sc, o["obs"])
         except pl.Unrepresentable as e:
             run.violation("corr:C14/slicegc observation outside the model: %s" % e, {"scenario": sc, "impl": o["obs"]}, False)
             continue
         for j, t in enumerate(ts):
             terms.append(t)
             idx.append((i, j))
-    res, logs = vlib.judge_cases("C14", SIMPORTS, "gjudge", terms, 3, tag="gc")
+    res, logs = vlib.judge_cases("C14", SIMPORTS, "gjudge", terms, 4, tag="gc")
     for l in logs:
         run.violation("corr:C14/coq-eval", {"correspondence": "coq evaluation failed (slicegc)", "log": l}, False)
     for (i, j), r in zip(idx, res):
@@ -350,12 +397,16 @@ def gc_stage(run, scs):
         ndel = sum(1 for q in o["requests"] if q["verb"] == "delete")
         nref = len({n for s in o["sets"] if s["listed"] for ph in s["refs"] for n in ph} - {n for ph in o["template"] for n in ph})
         if o["before"]:
+            if o["others"]:
+                run.classes.add(("gc-two-namespaces", o["ns"], min(ndel, 2)))
             tn = {n for ph in o["template"] for n in ph}
             held = tuple(sorted({(s["life"] or "Active") + ("/deleting" if s["gone"] else "") for s in o["sets"] if s["listed"]
                                  and any(n not in tn for ph in s["refs"] for n in ph)}))
             run.classes.add(("gc", min(ndel, 3), min(nref, 3), sum(1 for s in o["sets"] if not s["listed"]) > 0,
                              sum(1 for s in o["before"] if not s["labelled"]) > 0, held))
-        agree, mon, hmon = r
+        agree, mon, hmon, rmon = r
+        if not rmon:
+            run.violation(ID_REDEPLOY, {"scenario": sc, "step": o["step"], "impl": o}, True)
         if not hmon:
             run.violation(ID_LOSSLESS, {"scenario": sc, "step": o["step"], "impl": o}, True)
         if not mon:
@@ -743,6 +794,13 @@ def check(run, tier, seed, replay=None):
         "500, ServerTimeout, 410 Gone, transport error without API status); every error other than NotFound must abort the pass",
         "deployment-controller view: getObjectsIncludingSlices is run on the target ObjectSet of the sliced twins with a reader as fresh as the "
         "store; identifiers are compared as multisets; the archive decision built on it is C08's",
+        "slice contents of the naming / GC stages are rendered by the real packagerender collector (RenderObjectSetTemplateSpec) from package "
+        "objects carrying only the phase annotation / only the CEL condition / another annotation / both; the recording server drops empty "
+        "metadata.annotations / labels maps of the objects embedded in ObjectSlices on create and update, as the API server's decoding does",
+        "slice GC across namespaces: slices are identified by (namespace, name); a slice of another namespace counts as referenced if a "
+        "deployment template or an ObjectSet of that namespace names it; 'unchanged redeploy' = same phases and chunks as the deployment's "
+        "previous deploy with no slice deleted in between (after the collector removed a colliding slice its name is free again and the real "
+        "code moves the content back to the lower collision count)",
         "slice GC holders: every ObjectSet the collector lists counts, whatever its lifecycle state (active, paused, archived, being deleted)",
     ]
     vlib.std_proof_stage(run, "C14")
